@@ -52,6 +52,7 @@ import (
 	"errors"
 	"iter"
 	"log/slog"
+	"maps"
 	"net/http"
 	"time"
 
@@ -297,12 +298,16 @@ func (r *transport) handleCacheHit(
 ) (*http.Response, error) {
 	ccReq := internal.ParseCCRequestDirectives(req.Header)
 	ccResp := internal.ParseCCResponseDirectives(stored.Data.Header)
-	freshness := r.fc.CalculateFreshness(stored, ccReq, ccResp)
+	freshness, reqMaxAgeExceeded := r.calculateFreshness(stored, ccReq, ccResp)
 	respNoCacheFieldsRaw, hasRespNoCache := ccResp.NoCache()
 	respNoCacheFieldsSeq, isRespNoCacheQualified := respNoCacheFieldsRaw.Value()
 
-	if (freshness.IsStale && ccResp.MustRevalidate()) ||
-		(hasRespNoCache && !isRespNoCacheQualified) { // Unqualified no-cache: must revalidate before serving from cache
+	// Validation that no other directive (max-stale, stale-while-revalidate,
+	// immutable) may waive: request no-cache, a stale must-revalidate response,
+	// an unqualified response no-cache, or a request max-age that is exceeded.
+	if ccReq.NoCache() || reqMaxAgeExceeded ||
+		(freshness.IsStale && ccResp.MustRevalidate()) ||
+		(hasRespNoCache && !isRespNoCacheQualified) {
 		goto revalidate
 	}
 
@@ -352,6 +357,31 @@ revalidate:
 		Freshness: freshness,
 	}
 	return r.vrh.HandleValidationResponse(ctx, req, resp, err)
+}
+
+// calculateFreshness returns the freshness of the stored response for this
+// request, and whether the request carries a max-age that the response's age
+// exceeds (after any max-stale allowance).
+func (r *transport) calculateFreshness(
+	stored *internal.Response,
+	ccReq internal.CCRequestDirectives,
+	ccResp internal.CCResponseDirectives,
+) (*internal.Freshness, bool) {
+	freshness := r.fc.CalculateFreshness(stored, ccReq, ccResp)
+	reqMaxAge, ok := ccReq.MaxAge()
+	switch {
+	case !ok:
+		return freshness, false
+	case reqMaxAge == 0:
+		// The calculator short-circuits max-age=0 without computing the age and
+		// the lifetime of the stored response; both are needed for the Age
+		// field and the stale-if-error window, so compute them without it.
+		ccReq = maps.Clone(ccReq)
+		delete(ccReq, "max-age")
+		return r.fc.CalculateFreshness(stored, ccReq, ccResp), true
+	default:
+		return freshness, freshness.IsStale && freshness.Age.Value >= reqMaxAge
+	}
 }
 
 func (r *transport) serveFromCache(
